@@ -501,6 +501,7 @@ pub fn run_check<P: Property>(o: &RunOpts) -> i32 {
     if P::CROSS_PROCESS_RUNS > 0 && o.digests_out.is_none() {
         let n = (P::CROSS_PROCESS_RUNS * if o.tier == Tier::Thorough { 10 } else { 1 }).min(total);
         let mut groups: Vec<Vec<(i64, u64, u64)>> = Vec::new();
+        let mut cross_worker_failed = false;
         for (gi, gw) in [8u64, 5u64].iter().enumerate() {
             let mut cs: Vec<Child> = (0..*gw).map(|k| spawn_worker(P::ID, o.tier, o.seed, k, *gw, n, &dir.join(format!("x{gi}_{k}.json")), true, t0)).collect();
             let mut dg = Vec::new();
@@ -508,7 +509,11 @@ pub fn run_check<P: Property>(o: &RunOpts) -> i32 {
                 let ok = c.proc.wait().map(|s| s.success()).unwrap_or(false);
                 match std::fs::read(&c.out).ok().and_then(|b| serde_json::from_slice::<WorkerOut>(&b).ok()) {
                     Some(wo) if ok => dg.extend(wo.digests),
-                    _ => harness_errors.push("cross-process worker failed".into()),
+                    _ => {
+                        // a worker of the re-execution died or hung: a crash is judged in the main
+                        // pass (by the checks that judge crashes); here it only ends the comparison
+                        cross_worker_failed = true;
+                    }
                 }
                 let _ = std::fs::remove_file(&c.out);
             }
@@ -516,7 +521,10 @@ pub fn run_check<P: Property>(o: &RunOpts) -> i32 {
             dg.sort();
             groups.push(dg);
         }
-        if groups.len() == 2 && groups[0].len() == groups[1].len() {
+        if cross_worker_failed {
+            merged.add("cross_process_comparison_skipped_worker_died", 1);
+            eprintln!("note: a worker of the cross-process re-execution died or hung: comparison skipped (a crash or hang is judged in the main pass)");
+        } else if groups.len() == 2 && groups[0].len() == groups[1].len() {
             for (a, b) in groups[0].iter().zip(groups[1].iter()) {
                 cross_checked += 1;
                 if a.0 != b.0 || a.1 != b.1 {
